@@ -149,6 +149,23 @@ def _gen_ops(rng, nhash, allow_rem=True, setop=("union", "inter")):
     return ops
 
 
+def _gen_join_edge(rng, nhash):
+    """two sketches whose cells sit at, one short of and two short of either limit, then a join in one
+    direction or the other (every cell one step from a limit, on both sides of it)"""
+    hs = [rng.randrange(2**64) for _ in range(nhash)]
+    edge = rng.choice([2**31 - 1, 2**31 - 2, 2**31, 2**31 - 3])
+    small = rng.choice([1, 1, 2, 3, 2**31 - 1])
+    first = rng.choice(["add", "rem"])
+    second = rng.choice(["add", "rem"])
+    ops = [(first, hs, edge), ("swap",), (second, hs, small)]
+    if rng.random() < 0.5:
+        ops.append(("swap",))
+    ops.append(("join",))
+    if rng.random() < 0.5:
+        ops += [("swap",), ("join",)]
+    return ops
+
+
 def run(tier, seed, deep, hints):
     rng = core.seeded(seed, "search-C16")
     n = 400 if tier == "quick" else 8000
@@ -170,7 +187,7 @@ def run(tier, seed, deep, hints):
         else:
             width, depth = rng.choice([(1, 1), (2, 3), (3, 2), (7, 4)])
             cls_name = rng.choice(["CountMinSketch", "CountMinSketch", "CountMeanSketch", "CountMeanMinSketch"]) if width > 1 else "CountMinSketch"
-            ops = _gen_ops(rng, depth, setop=("join",))
+            ops = _gen_join_edge(rng, depth) if rng.random() < 0.3 else _gen_ops(rng, depth, setop=("join",))
             bad = _cms_history(ops, width, depth, cls_name)
             case = {"structure": cls_name, "width": width, "depth": depth, "ops": ops}
         evals += 1
